@@ -111,6 +111,7 @@ func vNondetErr(name string) error      { return nil }
 func vHavocBytes(b []byte, name string) {}
 func vLiveContext() context.Context { return context.Background() }
 func vUnsafeClass(k int)        {}
+func vTickers(mask, budget int) {}
 func vOutUnsafe() bool          { return false }
 func vLastEncoded() interface{} { return nil }
 func vAnd(a, b bool) bool       { return a && b }
